@@ -21,7 +21,7 @@ import json, sys, os
 o, p, idn, md, d0, d1 = sys.argv[1:]
 note = open(md).read() if os.path.exists(md) else ""
 json.dump({"id": f"{p}-{idn}", "property": p,
-           "source": "independent sub-agent given only the property text and a scratch worktree of /repo (nothing from /verif), round " + {"m":"1","n":"2","o":"3 (after the canonical-form rewrite)","p":"4 (after benign round 3: soft rules, undecided unless a wrong value is witnessed)","q":"5","x":"6 (slips)","y":"7 (feature, optimisation and robustness commits gone wrong)","a":"8 (mixed: one slip, one refactoring gone wrong, one feature commit gone wrong)","c":"9 (mixed, same brief as round 8)","e":"10 (free choice of kinds)"}.get(idn[0], idn[0]),
+           "source": "independent sub-agent given only the property text and a scratch worktree of /repo (nothing from /verif), round " + {"m":"1","n":"2","o":"3 (after the canonical-form rewrite)","p":"4 (after benign round 3: soft rules, undecided unless a wrong value is witnessed)","q":"5","x":"6 (slips)","y":"7 (feature, optimisation and robustness commits gone wrong)","a":"8 (mixed: one slip, one refactoring gone wrong, one feature commit gone wrong)","c":"9 (mixed, same brief as round 8)","e":"10 (free choice of kinds)","g":"11 (one change per property, kind chosen by the author, short session)"}.get(idn[0], idn[0]),
            "needs_to_manifest_and_notes": note,
            "confirmed_by_me": {"how": "tools/import_seeded.sh on a scratch copy: demo on clean tree, git apply, demo, pinned suite",
                                "demo_clean_exit": int(d0), "demo_mutant_exit": int(d1), "suite_with_mutant": "pytest exit 0"},
